@@ -65,8 +65,10 @@ def gen_model(rng, idx):
       if rng.integers(0, 2):
         x = qkeras.QActivation(act_arg(rng), name=f"a{idx}_{j}")(x)
     if rng.integers(0, 2):
-      x = qkeras.QAveragePooling2D(2, average_quantizer=pick(rng, ["quantized_bits(8,0,1)", None]), name=f"p{idx}")(x)
-    x = qkeras.QGlobalAveragePooling2D(average_quantizer=pick(rng, ["quantized_bits(8,0,1)", None]), name=f"g{idx}")(x) if rng.integers(0, 2) \
+      x = qkeras.QAveragePooling2D(pick(rng, [2, (2, 1), (1, 2)]), average_quantizer=pick(rng, ["quantized_bits(8,0,1)", "quantized_bits(6,0,1)", None]),
+                                   activation=pick(rng, [None, "quantized_bits(3,0,1)", "quantized_relu(4,1)"]), name=f"p{idx}")(x)
+    x = qkeras.QGlobalAveragePooling2D(average_quantizer=pick(rng, ["quantized_bits(8,0,1)", None]),
+                                       activation=pick(rng, [None, "quantized_bits(3,0,1)", "quantized_relu(4,1)"]), name=f"g{idx}")(x) if rng.integers(0, 2) \
         else L.Flatten(name=f"f{idx}")(x)
   else:
     inp = Input((10, 3), name=f"i{idx}")
